@@ -143,6 +143,13 @@ func c15Int(nstr string) core.Result {
 		if msg := safeLaw(v, got); msg != "" {
 			return core.Violation("safe-wrapper", msg)
 		}
+		// used as the key of a string-keyed hash, every carrier of n selects the entry spelled n (not a character)
+		if small && n.IsInt64() && n.Int64() >= 0 {
+			m := map[string]stick.Value{n.String(): "hit", string(rune(n.Int64())): "rune", "x": "other"}
+			if el, err := stick.GetAttr(m, v); err != nil || el != "hit" {
+				return core.Violation("carrier-dependent", fmt.Sprintf("GetAttr(map[string]Value{%q: hit, ...}, %T(%v)) = %v, %v; want the entry %q", n.String(), v, v, el, err, n.String()))
+			}
+		}
 		// an integer kind spells its value in decimal digits, whatever its size (floats switch to an exponent at a million)
 		switch v.(type) {
 		case float32, float64:
